@@ -16,7 +16,7 @@ import os
 from .. import stream, tlc
 from ..common import workdir, rm_workdir, seed, MachineryError
 
-VALID_MODES = '{[info |-> i, cont |-> c, filt |-> f] : i \\in BOOLEAN, c \\in {FALSE}, f \\in BOOLEAN}'
+VALID_MODES = '{[info |-> i, cont |-> c, filt |-> f, ive |-> v] : i \\in BOOLEAN, c \\in {FALSE}, f \\in BOOLEAN, v \\in BOOLEAN}'
 
 
 def cli_split(run, wd, cases):
